@@ -128,12 +128,172 @@ def gen_cases(rng, tier):
     return cases
 
 
+def overlong_itf8(v, rng):
+    """A valid ITF-8 encoding of v that may use more bytes than necessary."""
+    u = v & 0xffffffff
+    n = rng.randrange(ref_len(u, 32), 6)
+    if n == ref_len(u, 32):
+        out = ref_itf8_enc(v)
+    elif n == 5:
+        out = [0xf0 | (u >> 28), (u >> 20) & 0xff, (u >> 12) & 0xff, (u >> 4) & 0xff, u & 0x0f]
+    else:
+        pre = {2: 0x80, 3: 0xc0, 4: 0xe0}[n]
+        out = [pre | (u >> (8 * (n - 1)))] + [(u >> (8 * k)) & 0xff for k in range(n - 2, -1, -1)]
+    if len(out) == 5 and rng.random() < 0.5:
+        out[4] |= rng.randrange(16) << 4
+    return out
+
+
+def overlong_ltf8(v, rng):
+    u = v & 0xffffffffffffffff
+    n = rng.randrange(ref_len(u, 64), 10)
+    pre = [0, 0x80, 0xc0, 0xe0, 0xf0, 0xf8, 0xfc, 0xfe, 0xff][n - 1]
+    hi = (u >> (8 * (n - 1))) if n < 9 else 0
+    return [pre | hi] + [(u >> (8 * k)) & 0xff for k in range(n - 2, -1, -1)]
+
+
+def rand_val(rng, bits):
+    lim = ([7, 14, 21, 28, 32] if bits == 32 else [7, 14, 21, 28, 35, 42, 49, 56, 64])
+    k = rng.randrange(len(lim))
+    lo = 0 if k == 0 else 1 << lim[k - 1]
+    return sgn(rng.randrange(lo, 1 << lim[k]), bits)
+
+
+MAXCOUNT = 40
+
+
+def sim_stream(b, tail, ops):
+    """What the property demands of a script of reader calls: per call the values,
+    whether an error must be reported, the bytes consumed so far and the furthest
+    offset the reader may have asked the source for. Written from the statement:
+    an item is announced by its first byte, exactly that many bytes are taken,
+    failure exactly when fewer are there; after a failure nothing is read."""
+    pos, failed, reqend = 0, False, 0
+    steps = []
+    danger = None
+
+    def item(dec):
+        nonlocal pos, failed, reqend
+        if failed:
+            return None
+        reqend = max(reqend, pos + 1)
+        if pos >= len(b):
+            failed = True
+            return None
+        v, n, ok = dec(b[pos:])
+        reqend = max(reqend, pos + n)
+        if not ok:
+            pos = len(b)
+            failed = True
+            return None
+        pos += n
+        return v
+
+    for i, op in enumerate(ops):
+        if op == 0:
+            v = item(ref_itf8_dec)
+            vals = [0 if v is None else v]
+        elif op == 1:
+            v = item(ref_ltf8_dec)
+            vals = [0 if v is None else v]
+        else:
+            vals = []
+            cnt = item(ref_itf8_dec)
+            if cnt is not None and (cnt < 0 or cnt > MAXCOUNT):
+                danger = i
+                break
+            for _ in range(cnt or 0):
+                v = item(ref_itf8_dec)
+                if v is None:
+                    break
+                vals.append(v)
+        steps.append(dict(vals=vals, failed=failed, consumed=pos, reqend=reqend))
+    return steps, danger
+
+
+def gen_stream_cases(rng, tier):
+    ncase = 260 if tier == 'quick' else 6000
+    cases = []
+    for k in range(ncase):
+        ops, b = [], []
+        style = rng.random()
+        for _ in range(rng.choice([1, 1, 2, 3, 4, 6])):
+            op = rng.choice([0, 0, 1, 1, 2])
+            ops.append(op)
+            if op == 0:
+                b += overlong_itf8(rand_val(rng, 32), rng) if rng.random() < 0.3 else ref_itf8_enc(rand_val(rng, 32))
+            elif op == 1:
+                b += overlong_ltf8(rand_val(rng, 64), rng) if rng.random() < 0.3 else ref_ltf8_enc(rand_val(rng, 64))
+            else:
+                cnt = rng.choice([0, 1, 2, 3, 5, 8, 13, MAXCOUNT])
+                b += overlong_itf8(cnt, rng) if rng.random() < 0.3 else ref_itf8_enc(cnt)
+                for _ in range(cnt):
+                    b += ref_itf8_enc(rand_val(rng, 32))
+        if style < 0.35 and b:
+            b = b[:rng.randrange(len(b))]            # cut anywhere, also inside an item
+        elif style < 0.5:
+            b += [rng.randrange(256) for _ in range(rng.randrange(1, 4))]
+            ops.append(rng.choice([0, 1]))
+        elif style < 0.6:
+            b = [rng.choice([0x00, 0x7f, 0x80, 0xc0, 0xe0, 0xf0, 0xf8, 0xfc, 0xfe, 0xff, rng.randrange(256)]) for _ in range(rng.randrange(0, 14))]
+        if rng.random() < 0.25:
+            ops.append(rng.choice([0, 1, 2]))          # one more call: sticky error or clean end of input
+        tail = 4 if rng.random() < 0.2 else 1
+        # a count that is negative or huge reaches make() (C11's business): read it as a plain number instead
+        for _ in range(len(ops) + 1):
+            _, danger = sim_stream(b, tail, ops)
+            if danger is None:
+                break
+            ops[danger] = 0
+        c = dict(op='stream', b=b, mode=rng.randrange(4), tail=tail, ops=ops)
+        if tail != 1:
+            # the fault is transient: more data follows it, which a reader that has failed must not touch
+            c['after'] = ref_itf8_enc(rand_val(rng, 32)) + [rng.randrange(128) for _ in range(rng.randrange(0, 6))]
+        cases.append(c)
+    return cases
+
+
+def stream_oracle(c, o):
+    if 'hang' in o:
+        return ('stream:hang', 'call did not return')
+    if 'panic' in o:
+        return ('stream:panic', 'stream reader panicked: ' + o['panic'])
+    exp, danger = sim_stream(c['b'], c['tail'], c['ops'])
+    if danger is not None:
+        return None
+    names = {0: 'itf8', 1: 'ltf8'}
+    for i, (e, g) in enumerate(zip(exp, o['steps'])):
+        nm = names.get(c['ops'][i], 'itf8slice')
+        where = 'call %d (%s) on %s' % (i, nm, c['b'])
+        if g['consumed'] != e['consumed']:
+            kind = 'overread' if g['consumed'] > e['consumed'] else 'underread'
+            return ('stream:%s:%s' % (nm, kind), '%s consumed %d bytes of the source in total, the announced lengths say %d' % (where, g['consumed'], e['consumed']))
+        if g['reqend'] > e['reqend']:
+            return ('stream:%s:overask' % nm, '%s asked the source for bytes up to offset %d, the announced lengths end at %d' % (where, g['reqend'], e['reqend']))
+        if (g['err'] != 0) != e['failed']:
+            return ('stream:%s:error' % nm, '%s: error %s, but the input is %s' % (where, g.get('msg'), 'short' if e['failed'] else 'complete'))
+        if e['failed'] and c['tail'] != 1 and g['err'] != 4:
+            return ('stream:%s:errorlost' % nm, "%s: the source's own error was replaced by %s" % (where, g.get('msg')))
+        if e['failed'] and c['tail'] == 1 and g['err'] not in (1, 2):
+            return ('stream:%s:errorclass' % nm, '%s: short input reported as %s' % (where, g.get('msg')))
+        if g['vals'] != e['vals']:
+            return ('stream:%s:value' % nm, '%s returned %s, specification %s' % (where, g['vals'], e['vals']))
+    return None
+
+
 def coq_term(c, o):
+    if c['op'] == 'stream':
+        if 'panic' in o:
+            return 'Strm %s %d %s true []' % (clist(c['b']), c['tail'], clist(c['ops']))
+        steps = '[' + '; '.join('(%s, %d, %d)' % (clist(g['vals']), g['err'], g['consumed']) for g in o['steps']) + ']'
+        return 'Strm %s %d %s false %s' % (clist(c['b']), c['tail'], clist(c['ops']), steps)
     if c['op'] in ('itf8enc', 'ltf8enc'):
         ctor = 'EncI' if c['op'] == 'itf8enc' else 'EncL'
         if 'panic' in o:
             return '%s %s %s true 0 [] 0' % (ctor, cz(c['v']), clist(c['buf']))
         return '%s %s %s false %s %s %s' % (ctor, cz(c['v']), clist(c['buf']), cz(o['n']), clist(o['buf']), cz(o['len']))
+    if 'panic' in o:
+        return 'DecPanic %s %s' % (cb(c['op'] == 'ltf8dec'), clist(c['b']))
     ctor = 'DecI' if c['op'] == 'itf8dec' else 'DecL'
     return '%s %s %s %s %s' % (ctor, clist(c['b']), cz(o['v']), cz(o['n']), cb(o['ok']))
 
@@ -141,6 +301,8 @@ def coq_term(c, o):
 def oracle(c, o):
     """Returns (sig, what) when the property fails on this observation."""
     op = c['op']
+    if op == 'stream':
+        return stream_oracle(c, o)
     if 'hang' in o:
         return (op + ':hang', 'call did not return')
     if op.endswith('enc'):
@@ -175,35 +337,140 @@ def oracle(c, o):
     return None
 
 
+class BigSet(set):
+    """Distinct non-trivial inputs: explicit keys plus the int32 values swept inside the Go harness
+    (size of the union of the swept intervals; random batches are not counted here)."""
+    extra = 0
+
+    def __len__(self):
+        return set.__len__(self) + self.extra
+
+
+def bulk_jobs(rng, tier):
+    """Checks that run inside the Go harness against its own reference codec (one summary observation each)."""
+    jobs = []
+    if tier == 'quick':
+        # every int32 around each length-class boundary, around zero and both ends, plus random windows
+        for edge in (0, 1 << 7, 1 << 14, 1 << 21, 1 << 28, 1 << 31):
+            for sign in (1, -1):
+                mid = sign * edge
+                lo, hi = max(mid - (1 << 15), -(1 << 31)), min(mid + (1 << 15), 1 << 31)
+                if lo < hi:
+                    jobs.append(dict(op='sweep32', lo=lo, hi=hi))
+        for _ in range(4):
+            lo = rng.randrange(-(1 << 31), (1 << 31) - (1 << 18))
+            jobs.append(dict(op='sweep32', lo=lo, hi=lo + (1 << 18)))
+        jobs.append(dict(op='batch64', seed=rng.randrange(1 << 30), n=400000))
+        jobs.append(dict(op='decbatch', seed=rng.randrange(1 << 30), n=400000))
+    else:
+        jobs.append(dict(op='sweep32', lo=-(1 << 31), hi=1 << 31))
+        jobs.append(dict(op='batch64', seed=rng.randrange(1 << 30), n=400000000))
+        jobs.append(dict(op='decbatch', seed=rng.randrange(1 << 30), n=200000000))
+    return jobs
+
+
+def cases_of_bad(bad, rng):
+    """Concrete cases for the ordinary harness path from a failing value reported by a bulk job."""
+    op = bad['op']
+    if op in ('itf8dec', 'ltf8dec'):
+        b = bad.get('b') or []
+        n = (ref_itf8_dec(b) if op == 'itf8dec' else ref_ltf8_dec(b))[1]
+        return [dict(op=op, b=b), dict(op=op, b=b[:n])]
+    v = bad['v']
+    enc = ref_itf8_enc(v) if op == 'itf8enc' else ref_ltf8_enc(v)
+    dec = 'itf8dec' if op == 'itf8enc' else 'ltf8dec'
+    out = [dict(op=op, v=v, buf=[0xa5] * (len(enc) + 3)), dict(op=dec, b=enc), dict(op=dec, b=enc + [rng.randrange(256)])]
+    if op == 'itf8enc' and len(enc) == 5:
+        out.append(dict(op=dec, b=enc[:4] + [enc[4] | 0xf0]))
+    return out
+
+
 def run(res, rng, tier):
-    cases = gen_cases(rng, tier)
-    # decoding a string and its announced-length prefix must agree (no over-read)
+    import time
+    t0 = time.time()
+    res.nontrivial = BigSet()
+    cases = gen_cases(rng, tier) + gen_stream_cases(rng, tier)
     obs = core.run_harness('c20', cases, jobs=4)
+    # bulk checks inside the harness; failing values come back and are re-run as ordinary cases
+    jobs = bulk_jobs(rng, tier)
+    jobs_obs = core.run_harness('c20', jobs, case_timeout='3000s', timeout=7200)
+    bulk = {}
+    extra_cases = []
+    swept = []
+    for j, o in zip(jobs, jobs_obs):
+        d = bulk.setdefault(j['op'], dict(checked=0, nbad=0))
+        if 'checked' not in o:
+            res.corr_bad.append(dict(case=j, obs={k: v for k, v in o.items() if k != 'stack'}, note='bulk check did not complete'))
+            continue
+        d['checked'] += o['checked']
+        d['nbad'] += o['nbad']
+        res.evaluations += o['checked']
+        if j['op'] == 'sweep32':
+            swept.append((j['lo'], j['hi']))
+        res.count('%s/in-harness' % j['op'], o['checked'])
+        unre = []
+        for bad in (o.get('bad') or []):
+            cs = cases_of_bad(bad, rng)
+            os_ = core.run_harness('c20', cs)
+            hit = [(c, x) for c, x in zip(cs, os_) if oracle(c, x)]
+            if hit:
+                extra_cases.extend(hit[:1])
+            else:
+                unre.append(bad)
+        for bad in unre:
+            res.failures.append(dict(sig='%s:bulk' % bad['op'], what='in-harness reference check: ' + bad['what'], case=bad, observed=bad))
+    # distinct swept int32 values: size of the union of the swept intervals (windows may overlap);
+    # random batches may repeat values and are counted as evaluations only
+    end = None
+    for lo, hi in sorted(swept):
+        if end is None or lo > end:
+            res.nontrivial.extra += hi - lo
+            end = hi
+        elif hi > end:
+            res.nontrivial.extra += hi - end
+            end = hi
+    res.extra['bulk_checks'] = bulk
+    for c, o in extra_cases:
+        cases.append(c)
+        obs.append(o)
+    t1 = time.time()
     terms = []
     for c, o in zip(cases, obs):
         res.evaluations += 1
         op = c['op']
-        if op.endswith('enc'):
+        if op == 'stream':
+            key = (op, tuple(c['b']), c['tail'], tuple(c['ops']))
+            st = o.get('steps') or []
+            res.count('stream/ops=%d/%s' % (len(c['ops']), 'fails' if any(g['err'] for g in st) else 'clean'))
+        elif op.endswith('enc'):
             key = (op, c['v'], len(c['buf']))
             res.count('%s/n=%s%s' % (op, o.get('n', '-'), '/panic' if 'panic' in o else ''))
         else:
             key = (op, tuple(c['b']))
             res.count('%s/len=%d/ok=%s' % (op, len(c['b']), o.get('ok')))
         res.nontrivial.add(key)
-        f = oracle(c, o)
+        if 'hang' in o or 'crash' in o or 'bad_case' in o or 'garbled' in o:
+            res.failures.append(dict(sig=op + (':hang' if 'hang' in o else ':crash'), what='the call did not complete in the harness', case=c,
+                                     observed={k: v for k, v in o.items() if k != 'stack'}))
+            continue
+        try:
+            f = oracle(c, o)
+            term = coq_term(c, o)
+        except (KeyError, TypeError, IndexError) as e:
+            res.failures.append(dict(sig=op + ':malformed-observation', what='observation lacks a field: %r' % (e,), case=c,
+                                     observed={k: v for k, v in o.items() if k != 'stack'}))
+            continue
         if f:
             res.failures.append(dict(sig=f[0], what=f[1], case=c, observed={k: v for k, v in o.items() if k != 'stack'}))
-        if 'hang' in o or 'crash' in o or 'bad_case' in o:
-            res.corr_bad.append(dict(case=c, obs=o))
-            continue
-        terms.append((c, o, coq_term(c, o)))
-    bad, err = core.coq_mismatches(HEADER, 'c20case', 'c20_agree', [t[2] for t in terms], 'c20')
+        terms.append((c, o, term))
+    bad, err = core.coq_mismatches(HEADER, 'c20case', 'c20_agree', [t[2] for t in terms], 'c20', shard=800 if tier == 'quick' else 1500)
     if err:
         res.corr_bad.append(dict(error=err))
     for i in bad:
         c, o, t = terms[i]
         res.corr_bad.append(dict(case=c, obs={k: v for k, v in o.items() if k != 'stack'}, coq_case=t,
-                                 note='generated Gallina translation / specification codec disagree with the implementation'))
+                                 note='generated Gallina translation / stream model / specification codec disagree with the implementation'))
+    t2 = time.time()
     # prefix agreement (no over-read), on the implementation
     dec = [(c, o) for c, o in zip(cases, obs) if c['op'].endswith('dec') and o.get('ok')]
     pre = [dict(op=c['op'], b=c['b'][:o['n']]) for c, o in dec]
@@ -212,9 +479,24 @@ def run(res, rng, tier):
         res.evaluations += 1
         if (po.get('v'), po.get('n'), po.get('ok')) != (o['v'], o['n'], o['ok']):
             res.failures.append(dict(sig=c['op'] + ':overread', what='Decode of %s depends on bytes beyond the announced length' % c['b'], case=c, observed=o, expected=po))
-    res.rule = ('stratified by encoded length (all 5 ITF-8 / 9 LTF-8 classes, both edges of each class, powers of two +-1, random fill), '
+    # the stream readers must not depend on how the source cuts its bytes into Read calls
+    strm = [(c, o) for c, o in zip(cases, obs) if c['op'] == 'stream' and 'steps' in o]
+    alt = [dict(c, mode=(c['mode'] + 1 + k % 3) % 4) for k, (c, o) in enumerate(strm)]
+    aobs = core.run_harness('c20', alt, jobs=4)
+    for (c, o), ac, ao in zip(strm, alt, aobs):
+        res.evaluations += 1
+        proj = lambda x: [(g['vals'], g['err'], g['consumed']) for g in x.get('steps', [])]
+        if proj(o) != proj(ao):
+            res.failures.append(dict(sig='stream:chunking', what='the result depends on how the source delivers its bytes (mode %d vs %d)' % (c['mode'], ac['mode']), case=ac, observed=ao, expected=o))
+    res.extra['phase_seconds'] = dict(harness=round(t1 - t0, 1), coq_cases=round(t2 - t1, 1), rest=round(time.time() - t2, 1))
+    res.rule = ('codec calls stratified by encoded length (all 5 ITF-8 / 9 LTF-8 classes, both edges of each class, powers of two +-1, random fill), '
                 'random destination buffers incl. too short ones, byte strings of length 0..10 over 16 first-byte classes; '
-                'a case is distinct by (op, value, buffer length) or (op, bytes); all are non-trivial (every one runs codec arithmetic)')
+                'scripts of 1..7 errorReader calls (itf8, ltf8, itf8slice) over concatenated canonical and over-long encodings, cut at arbitrary '
+                'offsets or followed by junk, four ways of chunking the source, EOF or a fault at the end; '
+                'a case is distinct by (op, value, buffer length), (op, bytes) or (bytes, tail, script); all are non-trivial (every one runs codec arithmetic). '
+                'In-harness bulk checks against the reference codec count one evaluation per value (distinct: the size of the union of the swept int32 intervals; a swept value that also occurs in an explicit case is a different case, its destination buffer differs): '
+                + ('all 2^32 int32 values' if tier != 'quick' else 'every int32 within 2^15 of each length-class boundary and four random windows of 2^18')
+                + ', random int64 uniform over the nine length classes, random byte strings decoded by both codecs.')
     res.samples = [dict(case=c, observed={k: v for k, v in o.items() if k != 'stack'}) for c, o in list(zip(cases, obs))[:3] + list(zip(cases, obs))[-2:]]
     res.trusted = TRUSTED
     res.assumptions = ASSUME
@@ -222,12 +504,12 @@ def run(res, rng, tier):
 
 def replay(res, rp):
     c = rp.get('case')
-    if not c:
+    if not c or 'op' not in c or c['op'] not in ('itf8enc', 'ltf8enc', 'itf8dec', 'ltf8dec', 'stream'):
         print(json_dumps(rp))
         return 0
     o = core.run_harness('c20', [c])[0]
     print('case     :', c)
-    print('observed :', o)
+    print('observed :', {k: v for k, v in o.items() if k != 'stack'})
     print('oracle   :', oracle(c, o))
     return 1 if oracle(c, o) else 0
 
@@ -238,22 +520,29 @@ def json_dumps(x):
 
 
 TRUSTED = [
-    'Coq 8.16.1 kernel (coqc); vm_compute used for case evaluation only; no native_compute',
+    'Coq 8.16.1 kernel (coqc; coqchk in the thorough tier); vm_compute used for case evaluation only; no native_compute',
     'translator /verif/gen (Go AST -> Gallina for Len/Encode/Decode of itf8 and ltf8: fixed-width wrap, bounds-checked indexing); validated on every run by evaluating the generated functions on the cases the implementation ran',
+    'hand model of errorReader.Read/itf8/ltf8/itf8slice and io.ReadFull over a list-shaped source (coq/Model/CramStream.v); validated on every run against the implementation through cram/verif_hooks_c20.go, four ways of chunking the source',
     'Go int (64 bit) is modelled as unbounded Z; sized integer types wrap explicitly',
     'axioms: none (Print Assumptions: Closed under the global context)',
 ]
 ASSUME = [
     'math/bits.LeadingZeros8 is modelled by Base.Prim.clz8',
     'the high nibble of the fifth ITF-8 byte is not significant (CRAM section 2.3; decoders mask it)',
+    'the source under the stream readers follows the io.Reader contract (an error returned together with data is returned again by the next call)',
+    'itf8slice counts are between 0 and 40 in generated scripts: a negative count panics in make() and a huge one only allocates (both belong to C11)',
 ]
 
 CLAIM = dict(
     text='Machine-checked proof (Coq 8.16.1) about the Gallina translation of itf8/ltf8 Len, Encode, Decode that /verif/gen regenerates from the Go source on every run: '
-         'round trip for every int32/int64, bytes equal the CRAM encoding, Decode equals the specification decoder on every byte string (so it never panics, '
-         'never looks past the announced length and fails exactly on short input). The translation is validated on every run by evaluating it inside Coq on the cases the implementation ran.',
+         'round trip for every int32 and every int64, bytes equal the CRAM encoding, Encode into a buffer of any length panics exactly when it is too short and otherwise writes Len bytes and nothing else, '
+         'Decode equals the specification decoder on every byte string (so it never panics, never looks past the announced length and fails exactly on short input). '
+         'The stream readers of cram.go (itf8, ltf8, itf8slice over errorReader/io.ReadFull) are modelled by hand around the generated decoders and proved to take exactly the announced bytes, '
+         'to fail exactly on short input, to read nothing after a failure, and never to block, for every input and every script of calls. '
+         'Translation and stream model are validated on every run by evaluating them inside Coq on the cases the implementation ran; an independent reference codec judges the implementation '
+         '(all 2^32 int32 values in the thorough tier).',
     note='Trusted: Coq kernel; the translator gen/ (expression/statement subset, fixed-width wrap, bounds-checked indexing; Go int as unbounded Z); '
-         'clz8 models math/bits.LeadingZeros8; high nibble of the 5th ITF-8 byte treated as insignificant. No axioms (Print Assumptions: closed). '
-         'The stream readers in cram.go are exercised by correspondence only.',
-    technique='Coq proof over source-regenerated Gallina + vm_compute correspondence + spec oracle',
+         'the hand model of io.ReadFull/errorReader over a byte list; clz8 models math/bits.LeadingZeros8; high nibble of the 5th ITF-8 byte treated as insignificant. '
+         'No axioms (Print Assumptions: closed). Negative or huge itf8slice counts (panic / allocation in make) are left to C11.',
+    technique='Coq proof over source-regenerated Gallina + hand model of the stream readers + vm_compute correspondence + spec oracle (Python and Go reference codecs)',
     design='6/C20')
